@@ -10,14 +10,14 @@ import (
 
 // C06: lists.List / lists.Ring in lock-step with container/list / container/ring.
 type c06 struct {
-	fl   map[int]*lists.List[int]
-	sl   map[int]*stdlist.List
-	fe   []*lists.Element[int]
-	se   []*stdlist.Element
-	fidx map[*lists.Element[int]]int
-	sidx map[*stdlist.Element]int
-	fr   []*lists.Ring[int]
-	sr   []*stdring.Ring
+	fl    map[int]*lists.List[int]
+	sl    map[int]*stdlist.List
+	fe    []*lists.Element[int]
+	se    []*stdlist.Element
+	fidx  map[*lists.Element[int]]int
+	sidx  map[*stdlist.Element]int
+	fr    []*lists.Ring[int]
+	sr    []*stdring.Ring
 	fridx map[*lists.Ring[int]]int
 	sridx map[*stdring.Ring]int
 }
